@@ -4,6 +4,7 @@ import RattrModel.Annotations
 import RattrModel.Spec.Honoured
 import RattrModel.Spec.DeclaredSubst
 import RattrModel.DeclaredInline
+import RattrModel.Regex
 import RattrDriver.C04
 
 namespace Rattr.Driver.C11
@@ -184,5 +185,49 @@ def handleIsName (payload : Json) : R Json := do
   let s := str (← asStr (← field payload "s"))
   return Json.mkObj [("model", isName s), ("spec", Spec.Honoured.isIdent s),
                      ("base", (asName s).base.toS), ("specBase", (Spec.Honoured.specBase s).toS)]
+
+/-! op `re_match`: exclusion patterns (AST of the regular fragment) × names → `fullmatch` / `match` / `search`
+verdicts of the model (`RattrModel/Regex.lean`) and `is_excluded_name`. -/
+
+def asChar (j : Json) : R Char := do
+  match (← asStr j).toList with
+  | [c] => return c
+  | _ => throw "expected a one-character string"
+
+partial def asCC (j : Json) : R Regex.CC := do
+  match (← asStr (← field j "k")) with
+  | "lit" => return .lit (← asChar (← field j "c"))
+  | "any" => return .any
+  | "word" => return .word
+  | "digit" => return .digit
+  | "range" => return .range (← asChar (← field j "lo")) (← asChar (← field j "hi"))
+  | "union" => return .union (← asCC (← field j "a")) (← asCC (← field j "b"))
+  | "neg" => return .neg (← asCC (← field j "a"))
+  | k => throw s!"unknown class kind {k}"
+
+partial def asRe (j : Json) : R Regex.Re := do
+  match (← asStr (← field j "k")) with
+  | "eps" => return .eps
+  | "cls" => return .cls (← asCC (← field j "c"))
+  | "cat" => return .cat (← asRe (← field j "a")) (← asRe (← field j "b"))
+  | "alt" => return .alt (← asRe (← field j "a")) (← asRe (← field j "b"))
+  | "star" => return .star (← asRe (← field j "a"))
+  | "plus" => return Regex.Re.plus (← asRe (← field j "a"))
+  | "opt" => return Regex.Re.opt (← asRe (← field j "a"))
+  | k => throw s!"unknown pattern kind {k}"
+
+def handleReMatch (payload : Json) : R Json := do
+  let pats ← (← asArr (← field payload "pats")).mapM asRe
+  let names ← asStrList (← field payload "names")
+  let bl (l : List Bool) : Json := jList (l.map Json.bool)
+  let rows := names.map fun n =>
+    let s := str n
+    Json.mkObj [("full", bl (Regex.verdicts pats s)),
+                ("prefix", bl (pats.map (Regex.prefixmatch · s))),
+                ("search", bl (pats.map (Regex.searchmatch · s))),
+                ("excluded", Json.bool (Regex.isExcludedName pats s)),
+                ("decision", match fileDecision [] (Regex.verdicts pats s) with
+                  | .ok .skip => "skip" | .ok .analyse => "analyse" | _ => "other")]
+  return Json.mkObj [("rows", jList rows)]
 
 end Rattr.Driver.C11
